@@ -526,6 +526,54 @@ impl NameMap {
         false
     }
 
+    /// Get the names of all parameters and local variables of a function
+    ///
+    /// Inside the function they are found before any name from the root scope
+    pub fn get_function_local_names(&self, module: &Module, id: FunctionId) -> HashSet<String> {
+        fn visit_block(block: &ScopeBlock, ids: &mut Vec<VariableId>) {
+            ids.extend(&block.1.variables);
+            for statement in &block.0 {
+                match &statement.kind {
+                    StatementKind::Var(def) => ids.push(def.id),
+                    StatementKind::Block(inner)
+                    | StatementKind::If(_, inner)
+                    | StatementKind::While(_, inner)
+                    | StatementKind::DoWhile(inner, _)
+                    | StatementKind::Switch(_, inner) => visit_block(inner, ids),
+                    StatementKind::IfElse(_, block_true, block_false) => {
+                        visit_block(block_true, ids);
+                        visit_block(block_false, ids);
+                    }
+                    StatementKind::For(init, _, _, inner) => {
+                        if let ForInit::Definitions(defs) = init {
+                            for def in defs {
+                                ids.push(def.id);
+                            }
+                        }
+                        visit_block(inner, ids);
+                    }
+                    _ => {}
+                }
+            }
+        }
+
+        let mut ids = Vec::new();
+        if let Some(implementation) = module.function_registry.get_function_implementation(id) {
+            for param in &implementation.params {
+                ids.push(param.id);
+            }
+            visit_block(&implementation.scope_block, &mut ids);
+        }
+
+        let mut names = HashSet::new();
+        for id in ids {
+            if let Some(name) = self.names.get(&NameSymbol::LocalVariable(id)) {
+                names.insert(name.name.clone());
+            }
+        }
+        names
+    }
+
     /// Get the qualified name for a given symbol
     pub fn get_name_qualified(&self, symbol: NameSymbol) -> ScopedName {
         let name = match self.names.get(&symbol) {
